@@ -217,6 +217,10 @@ fn plan_inner(id: &str, tier: &str, seed: u64, round: u64) -> Plan {
                 .map(|i| {
                     let mut c = cfg.clone();
                     c.force_style = if i % 5 == 4 { None } else { Some(vmodel::model::STYLES[i % 16].to_string()) };
+                    // every style regularly meets identifiers that start with a non-ASCII upper-case letter
+                    if (i / 16) % 3 == 1 {
+                        c.idents = ["Éclair", "Ünï", "Ñandú", "Öl2"].iter().map(|s| s.to_string()).collect();
+                    }
                     // field-less enums regularly (they may carry explicit discriminants in any order)
                     if i % 6 == 3 {
                         c.allow_fields = false;
